@@ -135,6 +135,18 @@ def run_case(case, st=None):
     if not case.get("no_carve"):
         # dynamic input predicates (decided by the reference run on the input alone, before rdflib is consulted)
         if R.STATS["str_of_bnode"]: carve.append("C04-T8-str-of-bnode")
+        if not carve:
+            # second, dynamic form of the push-down predicate: the reference evaluates the query once more as a fully top-down engine would
+            # (every solution handed into the next operand). If that changes the answer, binding push-down matters for this input, whatever
+            # the static predicate says; only queries on which it cannot matter are judged.
+            try:
+                pushed = R.eval_seeded(where, ref_ctx(case["data"]), {})
+                same = ms(pushed, vars_) == ms(ref, vars_)
+            except (R.Latitude, R.Budget, ValueError, R.Err):
+                same = False
+            if not same:
+                carve.append("T2-pushdown-into-nonBGP-operand")
+                st.setdefault("_count", {})["pushdown_found_by_probe_only"] = 1
         for c in carve: st.setdefault("_known", {})[c] = 1
     if carve:
         st["carved"] = st.get("carved", 0) + 1
